@@ -43,12 +43,19 @@ TIMES = T12.TIMES
 LOCS = None
 
 
-def build(seed, n=2, with_clim=False):
+def build(seed, n=2, with_clim=False, clim_tmax=True):
     inputs = T12.build(n, seed)
+    for k, ai in enumerate(inputs):
+        # an extra field whose name has an upper-case letter ("the name of any other field in the input files")
+        ai.fields["Tmax"] = {pos: v * 2 + 0.25 + k for pos, v in ai.fields["crps"].items()}
     clim = None
     if with_clim:
         locs = gen.std_locs(3, seed)
         clim = datasets.full_input("Clim.txt", TIMES, [0.0, 12.0, 24.0], locs, k=3, seed=seed, missing=[("fcst", (1, 1, 1))])
+        if clim_tmax:
+            clim.fields["Tmax"] = {pos: v * 2 + 0.125 for pos, v in clim.fields["crps"].items()}
+        else:
+            clim.name = "ClimNoTmax.txt"
     return inputs, clim
 
 
@@ -87,7 +94,9 @@ def option_menu(seed):
         "-T": [("-T", "24"), ("-T", "13", "-Tagg", "max"), ("-T", "48", "-Tx", "time", "-Tagg", "sum")],
         "-leg": [("-leg", "first_sys,second")],
         "-acc": [("-acc",)],
-        "-fcst": [("-fcst", "crps"), ("-obs", "fcst")],
+        "-fcst": [("-fcst", "crps"), ("-obs", "fcst"), ("-fcst", "Tmax")],
+        # "-r thresholds ... (only used by some metrics)": no effect on the others, also next to -q for a quantile metric
+        "-r-unused": [("-r", "1.5")],
     }
 
 
@@ -202,13 +211,13 @@ def expected_table(ref, metric, axis, pres, n):
 def argv_of(paths, climpath, metric, axis, r_list, groups):
     a = list(paths) + ["-m", metric, "-type", "csv", "-x", axis]
     if r_list:
-        a += ["-r", ",".join(gen.fmt_num(x) for x in r_list)]
+        a += ["-q" if metric == "quantilescore" else "-r", ",".join(gen.fmt_num(x) for x in r_list)]
     for g in groups:
         a += [climpath if x == "<clim>" else x for x in g]
     return a
 
 
-METRICS = ["mae", "bias", "rmse", "obs", "fcst", "corr", "ets", "hit"]
+METRICS = ["mae", "bias", "rmse", "obs", "fcst", "corr", "ets", "hit", "quantilescore"]
 AXES = ["leadtime", "time", "location", "month", "day", "timeofday", "leadtimeday", "no", "threshold", "lat", "week", "dayofmonth"]
 
 
@@ -224,10 +233,16 @@ def h_model(ctx):
     r_list = None
     if thr_metric:
         r_list = [2.0, 1.0, 3.0] if axis == "threshold" else [2.0]
+    if metric == "quantilescore":
+        r_list = [0.5]                       # given with -q
     groups = []
     for name in sorted(menu):
         opts = menu[name]
         if name == "-b" and not thr_metric:
+            continue
+        if name == "-r-unused" and thr_metric:
+            continue
+        if name == "-fcst" and metric == "quantilescore":
             continue
         if name == "-agg" and metric not in AGG_AWARE:
             continue
@@ -574,6 +589,7 @@ REJECTS = [
     ("T-zero", ["-T", "0"]), ("T-negative", ["-T", "-1"]), ("q-negative", ["-q", "-0.1"]), ("q-above-one", ["-q", "0.5,1.5"]), ("agg-quantile-above-one", ["-agg", "1.5"]),
     ("legend-count", ["-leg", "only_one"]), ("legend-count-3", ["-leg", "a,b,c"]), ("missing-config-file", ["--config", "<nofile>"]),
     ("input:missing", "FILE:missing"), ("input:directory", "FILE:directory"), ("input:garbage", "FILE:garbage"), ("clim:missing", ["-c", "<missing>"]),
+    ("field:not-in-the-files", ["-fcst", "nosuchfield"]), ("field:not-in-the-climatology", ["-c", "<clim-without-Tmax>", "-fcst", "Tmax"]),
 ]
 VALID_SINGLE = [["-x", "time"], ["-agg", "max"], ["-o", "0,24"], ["-tod", "0"], ["-acc"], ["-b", "above"], ["-r", "1,2"], ["-T", "24"], ["-leg", "a,b"], ["-obsrange", "0,5"],
                 ["-latrange", "40,45"], ["--list-times"], ["-fcst", "crps"], ["-d", "20120228"]]
@@ -581,8 +597,8 @@ VALID_SINGLE = [["-x", "time"], ["-agg", "max"], ["-o", "0,24"], ["-tod", "0"], 
 
 def h_reject(ctx):
     seed = core.seed()
-    inputs, clim = build(seed, 2, False)
-    paths, _ = write(inputs, None, "c13rej")
+    inputs, clim_nt = build(seed, 2, True, clim_tmax=False)
+    paths, clim_nt_path = write(inputs, clim_nt, "c13rej")
     bad = bad_files(os.path.join(H.scratch(), "c13bad%d" % os.getpid()))
     name, extra = ctx.choose("rejection", REJECTS, free=True)
     companion = ctx.choose("companion", [None] + VALID_SINGLE, free=True)
@@ -595,7 +611,7 @@ def h_reject(ctx):
     if isinstance(extra, str):
         base = [bad[extra.split(":")[1]]] + base[1:]
         extra = []
-    extra = [bad["missing"] if x in ("<nofile>", "<missing>") else x for x in extra]
+    extra = [bad["missing"] if x in ("<nofile>", "<missing>") else clim_nt_path if x == "<clim-without-Tmax>" else x for x in extra]
     if name.startswith("flag-without-value"):
         where = "after"
     comp = list(companion) if companion else []
